@@ -212,6 +212,132 @@ pub fn lookup_case_w(r: &mut Rng, n_real: usize, n_phantom: usize, kind: u8, nod
     )
 }
 
+/// a deep lookup: seven peers answer one after the other, each listing twenty nodes closer than everything before (they
+/// never answer: 140 further requests go out); an eighth peer answers late - after its request's timeout, while younger
+/// requests are still out - and lists a real node right next to the target: it is asked, answers and leads the report
+pub fn deep_case(r: &mut Rng, kind: u8) -> String {
+    let is_find = kind == 0;
+    let waves = 12usize;
+    let n_known = waves + 1;
+    let mut s = Scn::new(r, n_known, false, Default::default());
+    let target = id20(r);
+    s.peers.push(Peer::new(id_at_distance(&target, 60, r)));
+    let n_real = s.peers.len();
+    let mut u: Vec<UNode> = s.peers.iter().map(unode_of_peer).collect();
+    for w in 0..waves {
+        for i in 0..20usize {
+            let ip = 0x3000_0000u32 + ((w as u32) << 16) + ((i as u32) << 8) + 3;
+            u.push(UNode { id: id_at_distance(&target, 150 - 5 * w, r), ip, port: 5100 });
+        }
+    }
+    let knows: Vec<Vec<usize>> = (0..n_real)
+        .map(|p| if p < waves { (0..20).map(|i| n_real + p * 20 + i).collect() } else if p == waves { vec![n_real - 1] } else { vec![] })
+        .collect();
+    let tid_target = Id::from(target);
+    let (tx, rx) = flume::unbounded();
+    let request = if is_find {
+        GetRequestSpecific::FindNode(FindNodeRequestArguments { target: tid_target })
+    } else {
+        GetRequestSpecific::GetPeers(GetPeersRequestArguments { info_hash: tid_target })
+    };
+    s.node.actor.verif_get(request, ResponseSender::ClosestNodes(tx));
+    let st0 = match s.node.actor.verif_lookup(&tid_target) {
+        Some(x) => x,
+        None => return "KLookup 0 [] [] [] [] [] [] true [7%nat]".into(),
+    };
+    let idxs = |ns: &[Node]| idx_list(&u, ns);
+    let timeout_ms = (s.snap().inflight.3 / 1000) as u64;
+    let mut ticks: Vec<String> = Vec::new();
+    let mut pending: Vec<(usize, SocketAddrV4, u32)> = Vec::new();
+    let mut reqs = vec![0u64; n_real];
+    let mut next_answer = 0usize; // peers answer in index order: 0..6 in waves, 7 late, 8 (the close node) when asked
+    let mut since_answer = 0u32;
+    let mut late_wait_done = false;
+    for _ in 0..400 {
+        for inc in poll(&s.peers) {
+            let this = match as_request(&inc.msg).map(|q| &q.request_type) {
+                Some(RequestTypeSpecific::FindNode(a)) => is_find && a.target == tid_target,
+                Some(RequestTypeSpecific::GetPeers(a)) => !is_find && a.info_hash == tid_target,
+                _ => false,
+            };
+            if this {
+                reqs[inc.peer] += 1;
+                pending.push((inc.peer, inc.from, inc.msg.transaction_id));
+            } else if let Some(mt) = honest_reply(&s.peers[inc.peer], &inc, &[]) {
+                s.peers[inc.peer].send(inc.from, inc.msg.transaction_id, mt, false, None);
+            }
+        }
+        since_answer += 1;
+        let mut resp_desc = "None".to_string();
+        // whose turn is it
+        let turn: Option<usize> = if let Some(k) = pending.iter().position(|(p, _, _)| *p == n_real - 1) {
+            Some(k)
+        } else if next_answer < waves && since_answer >= 2 {
+            pending.iter().position(|(p, _, _)| *p == next_answer)
+        } else if next_answer == waves && since_answer >= 2 {
+            if !late_wait_done {
+                // the first requests went out a whole timeout ago; the last wave's are a seventh of it old
+                late_wait_done = true;
+                s.advance(timeout_ms / (waves as u64) + 150);
+                None
+            } else {
+                pending.iter().position(|(p, _, _)| *p == waves)
+            }
+        } else {
+            None
+        };
+        if let Some(k) = turn {
+            let (p, from, tid) = pending.remove(k);
+            let listed: Vec<Node> = knows[p].iter().map(|i| u[*i].node()).collect();
+            let responder_id = Id::from(s.peers[p].id);
+            let mt = if is_find {
+                MessageType::Response(ResponseSpecific::FindNode(FindNodeResponseArguments { responder_id, nodes: listed.clone().into() }))
+            } else {
+                MessageType::Response(ResponseSpecific::NoValues(NoValuesResponseArguments { responder_id, token: vec![1, 1, 1, 1].into(), nodes: Some(listed.clone().into()) }))
+            };
+            s.peers[p].send(from, tid, mt, false, None);
+            let listed_idx: Vec<String> = knows[p].iter().map(|i| format!("{}%nat", i)).collect();
+            resp_desc = format!("(Some ([{}], {}))", listed_idx.join(";"), if is_find { "None".to_string() } else { format!("(Some {}%nat)", p) });
+            if p < waves {
+                next_answer = p + 1;
+                since_answer = 0;
+                // the waves are a seventh of the request timeout apart
+                s.advance(timeout_ms / (waves as u64));
+            } else if p == waves {
+                next_answer = waves + 1;
+            }
+        } else if next_answer > waves && pending.is_empty() && since_answer >= 3 {
+            s.advance(700);
+        }
+        s.node.tick();
+        match s.node.actor.verif_lookup(&tid_target) {
+            Some(st) => {
+                ticks.push(format!("{{| t_resp := {}; t_closest := {}; t_responders := {}; t_visited := {}; t_seen := true |}}", resp_desc, idxs(&st.0), idxs(&st.1), addrs(&st.2)));
+            }
+            None => {
+                match s.node.actor.verif_lookup_done(&tid_target) {
+                    Some(st) => ticks.push(format!("{{| t_resp := {}; t_closest := {}; t_responders := {}; t_visited := {}; t_seen := true |}}", resp_desc, idxs(&st.0), idxs(&st.1), addrs(&st.2))),
+                    None => ticks.push(format!("{{| t_resp := {}; t_closest := []; t_responders := []; t_visited := []; t_seen := false |}}", resp_desc)),
+                }
+                break;
+            }
+        }
+    }
+    let result: Vec<Node> = rx.try_recv().map(|b| b.to_vec()).unwrap_or_default();
+    format!(
+        "KLookup {} {} {} {} {} [{}] [{}] {} {}",
+        n_hex(&target),
+        univ_coq(&u),
+        idxs(&st0.0),
+        idxs(&st0.1),
+        addrs(&st0.2),
+        ticks.join("; "),
+        reqs.iter().map(|c| c.to_string()).collect::<Vec<_>>().join(";"),
+        boolean(is_find),
+        idxs(&result)
+    )
+}
+
 pub fn generate(seed: u64, scale: usize) -> Cases {
     let mut r = Rng::new(seed ^ 0xC07);
     let mut cases = Cases::new();
@@ -234,6 +360,9 @@ pub fn generate(seed: u64, scale: usize) -> Cases {
     // more than 255 candidates before the closest node is heard of
     cases.push("wide_280_candidates_then_the_closest", lookup_case_w(&mut r, 6, 350, 0, false, true));
     cases.push("wide_280_candidates_then_the_closest", lookup_case_w(&mut r, 5, 280, 1, false, true));
+    // more than 128 requests in one lookup, then a late answer that lists the closest node
+    cases.push("deep_200_requests_then_a_late_answer", deep_case(&mut r, 0));
+    cases.push("deep_200_requests_then_a_late_answer", deep_case(&mut r, 1));
     let _ = Ipv4Addr::LOCALHOST;
     cases
 }
